@@ -22,7 +22,8 @@ LEVEL_TEXT = ("Partial. Unbounded proof about the specification: for every graph
               "every other node with that property also lies on every path to d. Proof over a finite domain: the model of "
               "dom_lt (coq/Dad/LtModel.v) ends and returns exactly that table on EVERY graph of one to four nodes (successor "
               "lists in increasing order, every node as entry: 65536 x 4 graphs of four nodes, swept by the kernel; "
-              "C18_dom_lt_meets_the_definition_up_to_four_nodes). What is NOT proved is that dom_lt computes "
+              "C18_dom_lt_meets_the_definition_up_to_four_nodes), also when the sets pred[w] and bucket[v], whose order in Python "
+              "depends on memory addresses, are iterated in the opposite order. What is NOT proved is that dom_lt computes "
               "this function for every larger graph: that is decided per graph, by evaluating the proved specification and the "
               "model of dom_lt inside Coq and comparing both with the real output - exhaustively for all digraphs with up to 3 "
               "(quick) or 4 (thorough) nodes, and on random graphs (loops, irreducible regions, catch edges, up to 60 nodes - the specification is cubic and worse, larger graphs are checked by the Python oracle only).")
